@@ -213,6 +213,11 @@ class FakeSnowflakeCursor:
             .transform(transforms.update_variables, variables=self._conn.variables)
             .transform(transforms.set_schema, current_database=self._conn.database)
             .transform(transforms.create_database, db_path=self._conn.db_path)
+            .transform(
+                transforms.current_database_schema,
+                has_database=self._conn.database_set,
+                has_schema=self._conn.schema_set,
+            )
             .transform(transforms.extract_comment_on_table)
             .transform(transforms.extract_comment_on_columns)
             .transform(transforms.information_schema_fs_columns_snowflake)
